@@ -48,6 +48,7 @@ func report(eng *Engine, prop, tier string, seed int, verif, outDir string, cfg 
 	var violations []string
 	var knownHit, undecidedNew, kfObls []string
 	discharged, claimed := 0, 0
+	notAttempted := 0
 	solverSecs := 0.0
 	bySolver := map[string]int{}
 	byKind := map[string][2]int{}
@@ -55,8 +56,12 @@ func report(eng *Engine, prop, tier string, seed int, verif, outDir string, cfg 
 	for _, o := range obls {
 		solverSecs += o.Secs
 		safety := isSafetyKind(o.Kind)
-		if safety && !inBase[o.Name] {
+		if safety && !inBase[o.Name] && !o.Claimed {
 			// not claimed: a safety obligation that did not discharge on the pinned tree, or a new one
+			if o.Status == "not-attempted" {
+				notAttempted++
+				continue
+			}
 			if o.Status != "discharged" {
 				undecidedNew = append(undecidedNew, fmt.Sprintf("%s [%s] %s", o.Name, o.Status, o.Pos))
 				continue
@@ -159,12 +164,13 @@ func report(eng *Engine, prop, tier string, seed int, verif, outDir string, cfg 
 		"load_s":                       round2(loadSecs),
 		"encode_s":                     round2(encSecs),
 		"known_finding_obligations":    kfObls,
-		"unclaimed_safety_obligations": len(undecidedNew),
-		"undecided_clauses":            undecidedClauses,
-		"vacuity_covers":               map[string]int{"checked": len(covers), "contradictory": coverFail},
-		"not_covered":                  cfg.NotCovered,
-		"contract_files":               eng.contractFiles,
-		"callee_contracts_used":        sortedKeys(calleeContracts),
+		"unclaimed_safety_obligations": len(undecidedNew) + notAttempted,
+		"unclaimed_safety_not_attempted_in_quick": notAttempted,
+		"undecided_clauses":                       undecidedClauses,
+		"vacuity_covers":                          map[string]int{"checked": len(covers), "contradictory": coverFail},
+		"not_covered":                             cfg.NotCovered,
+		"contract_files":                          eng.contractFiles,
+		"callee_contracts_used":                   sortedKeys(calleeContracts),
 	}
 	ev := map[string]any{
 		"property_id": prop,
